@@ -513,4 +513,6 @@ def run(run: Run):
     run.floor('C18.R4', 2)
     from .common import shared_mechanisms as _shared
     _shared(run, 'C18', 8, ['addresses'])
+    from .common import shared_mechanisms as _shared_g
+    _shared_g(run, 'C18', 9, ['facade'])
     return INFO
